@@ -45,6 +45,7 @@ def run(ctx):
     import controls
     controls.panic_cone(ctx)
     cone.judge(ctx, 'H1.panic-source', groups, triage, describe)
+    ctx._cone = (G, parent, regions, srcs)
     if not srcs:
         ctx.ok('H1.panic-source', 'none', '', 'no panic source in the cone')
 
@@ -223,3 +224,14 @@ def any_depth_bounded(f, comp):
     if stepped and guarded:
         return True, 'recursion bounded by a depth counter compared with a constant'
     return False, 'recursion on peer-controlled nesting without a depth bound (no integer parameter compared with a constant before the recursive call and stepped by 1): stack overflow on deeply nested input'
+
+
+def run_thorough(ctx):
+    """cross-engine agreement: clippy's restriction lints (an independent, lexical implementation) inside the cone's bodies"""
+    if ctx.cfg != 'default':
+        return          # clippy is run with the default feature set: compared in that configuration only
+    G, parent, regions, srcs = ctx._cone
+    sites, info = engine.clippy_sites()
+    n = cone.clippy_agreement(ctx, 'H1.cross-engine-agreement', G, parent, regions, srcs, sites)
+    ctx.floor('H1.cross-engine', 'clippy sites inside the decode-side cone', n, 10)
+    ctx.note('cross-engine agreement: %d constructs reported by clippy restriction lints (%s) lie inside the %d bodies of the cone; each must coincide with a MIR panic source (%s)' % (n, ', '.join(engine.CLIPPY_LINTS), len(parent), info))
